@@ -43,6 +43,7 @@ LeafEq(fv, av) ==
     ELSE IF IsNum(fv) /\ IsNum(av) THEN /\ fv.t = av.t
                                          /\ ("negzero" \in DOMAIN fv) = ("negzero" \in DOMAIN av)
                                          /\ (IF Modelled(fv) /\ Modelled(av) THEN NumCmp(fv, av) = 0
+                                             ELSE IF fv.t = "int" THEN "dec" \in DOMAIN fv /\ "dec" \in DOMAIN av /\ fv.dec = av.dec   \* beyond 32 bits: decimal digits
                                              ELSE "s" \in DOMAIN fv /\ "s" \in DOMAIN av /\ fv.s = av.s)
     ELSE DeepEq(fv, av)
 IsLeaf(e) == e.op \in {"const", "path"}
@@ -54,7 +55,12 @@ SameShape(f, a) == IF f.op = "(" THEN SameShape(f.l, a)
                    ELSE IF IsLeaf(a) THEN f.op = a.op /\ (a.op = "path" \/ LeafEq(f.v, a.v))
                    ELSE IF IsLeaf(f) THEN FALSE
                    ELSE OpNorm(f.op) = a.op /\ "r" \in DOMAIN f /\ SameShape(f.l, a.l) /\ SameShape(f.r, a.r)
-TargetTree(ev) == IF ev.k = "eq" THEN ev.ast ELSE Intended(ev.case.items)
+\* CHANGELOG 1.11: "A script of @.x is now read correctly as @.x exists true": the script entry points (jp.NewScript,
+\* MustNewScript, MustParseEquation(..).Script()) read a text that is only a path as that test; filters keep the bare path
+ScriptForm(f) == f \in {"NewScript", "MustNewScript", "MustParseEquation"}
+TargetTree(ev) == IF ev.k = "eq" THEN ev.ast
+                  ELSE LET t == Intended(ev.case.items) IN
+                       IF ScriptForm(ev.form) /\ t.op = "path" THEN [op |-> "exists", l |-> t, r |-> [op |-> "const", v |-> BoolV(TRUE)]] ELSE t
 ShapeBroken(ev) == /\ IsEq(ev) /\ AllBinary(TargetTree(ev))
                    /\ \/ (ev.tr.op # "?" /\ ~SameShape(ev.tr, TargetTree(ev)))
                       \/ (ev.to.op # "?" /\ ~SameShape(ev.to, TargetTree(ev)))
@@ -68,6 +74,9 @@ Verdict14(ev) ==
     ELSE IF ev.perr = 1 THEN "does-not-parse"
     ELSE IF ev.s2 # ev.s1 THEN "prints-differently"
     ELSE IF ShapeBroken(ev) THEN "structure-differs"
+    \* every parse entry point of a text form reads the same text alike (structure and evaluation as through jp.ParseString for
+    \* filters, jp.NewScript for scripts)
+    ELSE IF ev.k = "txt" /\ ev.pref # "" /\ (ev.pt # ev.pref \/ ev.mo # ev.mref) THEN "entry-points-differ"
     \* ALLOW: when the re-parsed expression is structurally identical to the original (a Go fact: reflect.DeepEqual),
     \* a different result is not caused by the text form (Expr.Get on several descents depends on map order: C05)
     \* ALLOW: an original whose repeated evaluation on the same data gives several results (Expr.Get through a wildcard
@@ -87,12 +96,14 @@ KeyClass(k) == IF Len(k) = 0 THEN "empty"
                ELSE IF \A i \in 1..Len(k) : Alnum(k[i]) THEN (IF 48 <= k[1] /\ k[1] <= 57 THEN "digits" ELSE "plain")
                ELSE "punct"
 UnionClass(u) == IF Len(u) = 0 THEN "empty" ELSE IF Len(u) = 1 THEN "single"
+                 ELSE IF \E i \in 1..Len(u) : "big" \in DOMAIN u[i] THEN "int64"
                  ELSE LET odd == {i \in 1..Len(u) : u[i].is /\ KeyClass(u[i].k) # "plain"} IN
                       IF odd = {} THEN "plain" ELSE "key " \o KeyClass(u[MinOf(odd)].k)
 FragName(f) == CASE f.f = "child" -> "child(" \o KeyClass(f.k) \o ")"
-                 [] f.f = "nth" -> IF f.i < 0 THEN "nth(neg)" ELSE "nth"
+                 \* ("big": an integer beyond 32 bits, carried as decimal text; i / s then hold only the signs)
+                 [] f.f = "nth" -> IF "big" \in DOMAIN f THEN (IF f.i < 0 THEN "nth(neg int64)" ELSE "nth(int64)") ELSE IF f.i < 0 THEN "nth(neg)" ELSE "nth"
                  [] f.f = "union" -> "union(" \o UnionClass(f.u) \o ")"
-                 [] f.f = "slice" -> "slice(" \o ToString(Len(f.s)) \o ")"
+                 [] f.f = "slice" -> "slice(" \o ToString(Len(f.s)) \o (IF "bs" \in DOMAIN f THEN " int64)" ELSE ")")
                  [] OTHER -> f.f
 RECURSIVE JoinNames(_)
 JoinNames(fr) == IF Len(fr) = 0 THEN "" ELSE IF Len(fr) = 1 THEN FragName(fr[1]) ELSE FragName(Head(fr)) \o " " \o JoinNames(Tail(fr))
